@@ -1,8 +1,6 @@
 package jschema
 
 import (
-	stdBytes "bytes"
-
 	"github.com/jsightapi/jsight-schema-core/bytes"
 	"github.com/jsightapi/jsight-schema-core/errs"
 	"github.com/jsightapi/jsight-schema-core/internal/sync"
@@ -100,7 +98,12 @@ func (b *exampleBuilder) buildObjectKey(k ischema.ObjectNodeKey) ([]byte, error)
 	if err != nil {
 		return nil, err
 	}
-	return stdBytes.Trim(ex, `"`), nil
+	// Only the two enclosing quotation marks go: a key type such as "ab\""
+	// ends with an escaped quotation mark that belongs to the key.
+	if len(ex) >= 2 && ex[0] == '"' && ex[len(ex)-1] == '"' {
+		ex = ex[1 : len(ex)-1]
+	}
+	return ex, nil
 }
 
 // objectKeyLiteral returns the key as it has to appear between the quotation
